@@ -113,12 +113,11 @@ inline bool backtrace_S(Rng& r, uint64_t idx)
     if (x < 55)
     {
       uint32_t seq = sp->seq++;
-      int res = 1;
-      int* rp = &res;
+      auto rp = std::make_shared<int>(1); // heap: a parked call completes after this frame is gone
       bool const named = r.chance(1, 3);
       uint32_t const blen = static_cast<uint32_t>(r.chance(1, 4) ? r.range(80, 300) : r.range(0, 20)); // beyond the event's inline buffer too
       run.run_on(*sp, [wp, sp, l, seq, rp, named, blen] { *rp = log_bt(wp->loggers[l].lg, named, sp->tid, seq, blen); }, "bt");
-      if (res != 1) { ++dropped; continue; } // dropping queue refused it: never stored
+      if (*rp != 1) { ++dropped; continue; } // dropping queue refused it: never stored
       bt_info[{sp->tid, seq}] = {blen, named};
       m.store(sp->tid, seq);
       ++stores;
@@ -129,10 +128,9 @@ inline bool backtrace_S(Rng& r, uint64_t idx)
     {
       quill::LogLevel lvl = r.pick({quill::LogLevel::TraceL1, quill::LogLevel::Debug, quill::LogLevel::Info, quill::LogLevel::Warning, quill::LogLevel::Error, quill::LogLevel::Critical});
       uint32_t seq = sp->seq++;
-      int res = 1;
-      int* rp = &res;
+      auto rp = std::make_shared<int>(1);
       run.run_on(*sp, [wp, sp, l, seq, lvl, rp] { std::vector<Issue> tmp; *rp = issue_std(tmp, wp->loggers[l].lg, static_cast<uint16_t>(l), lvl, sp->tid, seq, 3).res; }, "log");
-      if (res != 1) { ++dropped; continue; }
+      if (*rp != 1) { ++dropped; continue; }
       m.expected.emplace_back(sp->tid, seq);
       if (lvl >= m.flush_level)
       {
